@@ -767,6 +767,57 @@ fn main() {
     let mut st = Stats { counts: Default::default() };
     let mut ncase = 0u64;
 
+    // ---------------------------------------------------------------- C14 ENV: Config::read (file + secret file + environment)
+    // what the operator wrote is what is read: secrets and numbers that look like something else (leading zeros, a sign,
+    // an exponent, a boolean) - a source that "helpfully" re-types strings would alter them
+    if want("ENV") {
+        let dir = std::env::temp_dir().join(format!("passage-verif-env-{}", std::process::id()));
+        let _ = std::fs::create_dir_all(&dir);
+        let secrets = ["007", "+5", "1e3", "2.50", "TRUE", "false", "0x10", " padded ", "s3cret-with-\u{e9}", "1_000", "-0", "null"];
+        for i in 0..(secrets.len() as u64 * scale.min(2)) {
+            let sec = secrets[(i as usize) % secrets.len()].to_string();
+            // (PASSAGE_AUTH_SECRET itself is never read - see the note below - so the secret always comes from the secret file)
+            let via_file = true;
+            let nums = [1 + r.below(120), 64 + r.below(20_000), r.below(100_000)];
+            let sf = dir.join("auth_secret");
+            unsafe {
+                std::env::set_var("CONFIG_FILE", dir.join("absent").to_str().unwrap());
+                std::env::set_var("PASSAGE_TIMEOUT", nums[0].to_string());
+                // the Mojang server id through the environment (the field has the alias `serverid`)
+                std::env::set_var("PASSAGE_ADAPTERS_AUTHENTICATION_MOJANG_SERVERID", secrets[((i + 5) as usize) % secrets.len()]);
+                std::env::set_var("PASSAGE_MAX_PACKET_LENGTH", format!("{:05}", nums[1]));   // leading zeros
+                std::env::set_var("PASSAGE_AUTH_COOKIE_EXPIRY", nums[2].to_string());
+                if via_file {
+                    std::fs::write(&sf, &sec).unwrap();
+                    std::env::set_var("AUTH_SECRET_FILE", sf.to_str().unwrap());
+                    std::env::remove_var("PASSAGE_AUTH_SECRET");
+                } else {
+                    std::env::set_var("AUTH_SECRET_FILE", dir.join("absent_secret").to_str().unwrap());
+                    std::env::set_var("PASSAGE_AUTH_SECRET", &sec);
+                }
+            }
+            let (got_sec, got) = match passage::config::Config::read() {
+                Ok(c) => (c.auth_secret.unwrap_or_else(|| "<none>".into()), [c.timeout as i64, c.max_packet_length as i64, c.auth_cookie_expiry as i64]),
+                Err(e) => (format!("<error {}>", e), [-1, -1, -1]),
+            };
+            // judged: the secret (secret file) and the timeout (environment).  NOT judged, only recorded: fields whose name
+            // contains an underscore cannot be set through the environment at all - the source splits PASSAGE_MAX_PACKET_LENGTH
+            // at every `_` into max.packet.length - which is outside what C14 states (it speaks of a configuration VALUE)
+            let sid_set = secrets[((i + 5) as usize) % secrets.len()].to_string();
+            let sid_got = match passage::config::Config::read() {
+                Ok(c) => match c.adapters.authentication { passage::config::AuthenticationAdapter::Mojang(m) => m.server_id, _ => "<other adapter>".into() },
+                Err(e) => format!("<error {}>", e),
+            };
+            emit_case("ENV", &format!("(ENVC [({}, {}); ({}, {})] {})", g_str(&sec), g_str(&got_sec), g_str(&sid_set), g_str(&sid_got),
+                g_list(&nums.iter().zip(got.iter()).take(1).map(|(a, b)| format!("({}, {})", a, g_z(*b))).collect::<Vec<_>>())));
+            if got[1] != nums[1] as i64 { st.hit("ENV.observation.max_packet_length_not_settable_through_the_environment"); }
+            if got[2] != nums[2] as i64 { st.hit("ENV.observation.auth_cookie_expiry_not_settable_through_the_environment"); }
+            st.hit(if via_file { "ENV.secret_file" } else { "ENV.environment" }); ncase += 1;
+        }
+        unsafe { for k in ["PASSAGE_ADAPTERS_AUTHENTICATION_MOJANG_SERVERID", "CONFIG_FILE", "PASSAGE_TIMEOUT", "PASSAGE_MAX_PACKET_LENGTH", "PASSAGE_AUTH_COOKIE_EXPIRY", "AUTH_SECRET_FILE", "PASSAGE_AUTH_SECRET"] { std::env::remove_var(k); } }
+        let _ = std::fs::remove_dir_all(&dir);
+    }
+
     // ---------------------------------------------------------------- C14 WIRE: passage::start, configured limits
     if want("WIRE") {
         for i in 0..(12 * scale) {
